@@ -20,7 +20,7 @@ EXPLANATION = (
     'the rendered value is never the receiver of a mutating operation; '
     'Html.element closes what it opens and Html.escape escapes.  Whole-document '
     'well-formedness for all inputs is not decided.')
-FLOORS = {'C20.a': 12, 'C20.b': 1, 'C20.c': 4, 'C20.d': 1}
+FLOORS = {'C20.a': 12, 'C20.b': 1, 'C20.c': 4, 'C20.d': 1, 'C20.e': 2}
 FILES = ['pyglove/core/views/html/tree_view.py', 'pyglove/core/views/html/base.py',
          'pyglove/core/views/html/controls/tab.py', 'pyglove/core/views/html/controls/label.py',
          'pyglove/core/views/html/controls/tooltip.py',
@@ -58,18 +58,21 @@ class Taint:
     self._seen = set()
 
   def name(self, nm, depth):
+    worst = (CLEAN, '')
     if nm in self.params:
       ann = self.ann.get(nm, '')
       if 'Html' in ann:
-        return MARKUP, f'parameter `{nm}` ({ann[:40]}): markup contract'
-      if nm in DATA_PARAMS:
+        worst = (MARKUP, f'parameter `{nm}` ({ann[:40]}): markup contract')
+      elif nm in DATA_PARAMS:
         return TAINT, f'data parameter `{nm}`'
-      return CLEAN, ''
+      # a parameter that is re-assigned inside the function also takes the
+      # class of what it is assigned (`content = value.path`)
+      if not any(v is not None for _, v in D.defs_of(self.fn, nm)):
+        return worst
     key = (nm, depth)
     if key in self._seen or depth <= 0:
-      return CLEAN, ''
+      return worst
     self._seen.add(key)
-    worst = (CLEAN, '')
     scopes = [self.fn]
     par = self.f.parent
     while par is not None:
@@ -522,12 +525,56 @@ def rule_d(ctx):
              'str payload written unescaped')
 
 
+def rule_e(ctx):
+  """(1) Escaping is a pure function of (text, mode): Html.escape keeps no memo
+  (a cache keyed by the text alone returns the JavaScript-escaped form where
+  the HTML-escaped one is needed, and vice versa).
+  (2) The per-thread rendering scopes of the view layer (options, rendering
+  stack, tracked scripts) are undone on every way out, so a rendering that
+  raised does not change what the next rendering on that thread emits."""
+  from sa.rules import c17
+  idx = ctx.index
+  f = idx.func('pyglove.core.views.html.base.Html.escape')
+  stores = []
+  for x in ast.walk(f.node):
+    if isinstance(x, (ast.Assign, ast.AugAssign)):
+      for t in A.stmt_targets(x):
+        if isinstance(t, (ast.Subscript, ast.Attribute)):
+          stores.append(A.unparse(x, 70))
+    elif isinstance(x, (ast.Global, ast.Nonlocal)):
+      stores.append(A.unparse(x, 70))
+    elif isinstance(x, ast.Call) and (A.call_name(x) or '').split('.')[-1] in ('setdefault', 'lru_cache', 'cache'):
+      stores.append(A.unparse(x, 70))
+  decos = [d for d in A.decorator_names(f.node) if 'cache' in d]
+  ctx.ob('C20.e', f.fq, not stores and not decos,
+         'Html.escape is a pure function of its arguments (no memo shared between the HTML and the JavaScript mode)',
+         f.loc, 'escape keeps state: ' + '; '.join(stores + decos))
+  n = 0
+  for q in ('pyglove.core.views.base.view_options', 'pyglove.core.views.base.View._track_rendering',
+            'pyglove.core.views.html.controls.base.HtmlControl.track_scripts'):
+    fn = idx.find_func(q)
+    if fn is None:
+      continue
+    n += 1
+    before = len(ctx.obs)
+    c17.analyse_generator(ctx, fn)
+    for o in ctx.obs[before:]:
+      if o.rule in ('C17.a', 'C17.b'):
+        o.rule = 'C20.e'
+      else:
+        o.info = True
+        o.rule = 'C20.e'
+  if n < 2:
+    raise AnalysisError('view-layer scope managers vanished')
+
+
 def run(ctx):
   ctx.consult(*FILES)
   rule_a(ctx)
   rule_b(ctx)
   rule_c(ctx)
   rule_d(ctx)
+  rule_e(ctx)
   ctx.assume('view options declared Union[str, Html] (title, tooltip content) and control '
              'fields (Label.text, Tab.label) are a markup contract, not data')
   ctx.assume('class names (type(value).__name__) are reported as information only')
